@@ -102,6 +102,8 @@ def enumerate_candidates(spec, wide=True, limit=None, task_lo=None, task_hi=None
             c2["dyn"] = {f"{r['task']}|{r['resource']}": list(d) for r, d in zip(dyn_reqs, combo)}
             yield c2
 
+    for _r in dyn_reqs:
+        total *= (H + 3) * (H + 4) // 2
     if limit is None or total <= limit:
         for tc in itertools.product(*per_task):
             for sc in itertools.product(*sel_opts):
@@ -117,8 +119,13 @@ def enumerate_candidates(spec, wide=True, limit=None, task_lo=None, task_hi=None
                 continue
             seen.add((tc, sc))
             cand = mk([o[i] for o, i in zip(per_task, tc)], [o[i] for o, i in zip(sel_opts, sc)])
-            dl = list(with_dyn(cand))
-            yield dl[rng.randrange(len(dl))]
+            if dyn_reqs:
+                cand["dyn"] = {}
+                for r in dyn_reqs:
+                    t = cand["tasks"][r["task"]]
+                    opts = dynamic_options(t["start"], t["end"], wide or dyn_wide) if t["scheduled"] else [(0, 0)]
+                    cand["dyn"][f"{r['task']}|{r['resource']}"] = list(opts[rng.randrange(len(opts))])
+            yield cand
 
 
 def classify(spec, cand):
